@@ -116,7 +116,11 @@ func (s *Store) key(t *Term) string {
 		case KReal:
 			sb.WriteString(t.R.String())
 		default:
-			sb.WriteString(t.Name)
+			if t.I != nil {
+				sb.WriteString(t.I.String())
+			} else {
+				sb.WriteString(t.Name)
+			}
 		}
 	case OpVar, OpUF, OpRaw:
 		sb.WriteString(t.Name)
@@ -182,6 +186,12 @@ func (t *Term) IsFalse() bool { return t.Op == OpConst && t.Sort.K == KBool && !
 func (t *Term) ConstInt() (int64, bool) {
 	if t.Op == OpConst && t.Sort.K == KInt && t.I.IsInt64() {
 		return t.I.Int64(), true
+	}
+	if t.Op == OpConst && t.Sort.K == KBV && t.I != nil {
+		v := bvSigned(t)
+		if v.IsInt64() {
+			return v.Int64(), true
+		}
 	}
 	return 0, false
 }
@@ -443,6 +453,10 @@ func (s *Store) Eq(a, b *Term) *Term {
 			return s.Bool(a.I.Cmp(b.I) == 0)
 		case KReal:
 			return s.Bool(a.R.Cmp(b.R) == 0)
+		case KBV, KFP:
+			if a.I != nil && b.I != nil {
+				return s.Bool(a.I.Cmp(b.I) == 0)
+			}
 		}
 	}
 	if r, ok := s.lift2(a, b, s.Eq); ok {
@@ -1000,6 +1014,17 @@ func (p *Printer) leaf(t *Term) (string, bool) {
 			return intSMT(t.I), true
 		case KReal:
 			return ratSMT(t.R), true
+		case KBV:
+			if t.I != nil {
+				return fmt.Sprintf("(_ bv%s %d)", t.I.String(), t.Sort.W), true
+			}
+			return t.Name, true
+		case KFP:
+			if t.I != nil {
+				b := fmt.Sprintf("%064b", t.I)
+				return fmt.Sprintf("(fp #b%s #b%s #b%s)", b[0:1], b[1:12], b[12:64]), true
+			}
+			return t.Name, true
 		default:
 			return t.Name, true
 		}
@@ -1081,6 +1106,14 @@ func (s *Store) Show(t *Term) string {
 			case KReal:
 				f, _ := t.R.Float64()
 				fmt.Fprintf(&sb, "%g", f)
+			case KFP:
+				if f, ok := fpVal(t); ok {
+					fmt.Fprintf(&sb, "%g", f)
+				}
+			case KBV:
+				if t.I != nil {
+					sb.WriteString(t.I.String())
+				}
 			default:
 				sb.WriteString(t.Name)
 			}
